@@ -64,6 +64,17 @@ ImplCount(I) ==
     IN  IF I.ikind = "bin" THEN (IF wb THEN 3 ELSE 0) + (IF wa THEN (IF wb THEN 2 ELSE 1) ELSE 0)
         ELSE IF wb THEN 1 ELSE 0
 
+\* the impl headers generated next to the user's own: <<"bin", l, r>> with l, r \in {"v", "r"} (by value / by reference)
+\* and <<"assign", "m", r>>; I.bl / I.br are the forms of the user's own operands
+ImplForms(I) ==
+    LET wb == \E k \in DOMAIN I.args : I.args[k] = "bin"
+        wa == \E k \in DOMAIN I.args : I.args[k] = "assign"
+        all == {<<"bin", l, r>> : l \in {"v", "r"}, r \in {"v", "r"}}
+    IN  IF I.ikind = "bin"
+        THEN (IF wb THEN all \ {<<"bin", I.bl, I.br>>} ELSE {})
+             \cup (IF wa THEN {<<"assign", "m", r>> : r \in (IF wb THEN {"v", "r"} ELSE {I.br})} ELSE {})
+        ELSE IF wb THEN {<<"bin", "v", I.br>>} ELSE {}
+
 \* classes of the output, in listing order; <<>> when the whole derivation fails
 EntryClasses(P) == [i \in DOMAIN P.traits |-> IF EntryError(P, P.traits[i]) THEN "error" ELSE "impl"]
 
